@@ -166,3 +166,58 @@ Proof.
     repeat (destruct Hr as [<-|Hr]; [unfold sat_row, mkrow; cbn; unfold inject_Z; lra|]).
     destruct Hr.
 Qed.
+
+From FP Require Import SafeFix.
+(* ---- safe-path fixing on the diamond: the lists [(0,1)] and [(0,2)] are safe and incompatible ---- *)
+Lemma two_out_edges_nodup (l : list node) (a b c : node) : b <> c -> NoDup l -> In (a, b) (pairs l) -> In (a, c) (pairs l) -> False.
+Proof.
+  intros Hbc. induction l as [|x r IH]; intros ND M1 M2; [destruct M1|].
+  destruct r as [|y r']; [destruct M1|].
+  change (pairs (x :: y :: r')) with ((x, y) :: pairs (y :: r')) in M1, M2.
+  inversion ND as [|? ? Hni ND']; subst.
+  destruct M1 as [E1|M1]; destruct M2 as [E2|M2].
+  - congruence.
+  - injection E1 as -> ->. apply in_pairs_r in M2. tauto.
+  - injection E2 as -> ->. apply in_pairs_r in M1. tauto.
+  - exact (IH ND' M1 M2).
+Qed.
+
+Definition exSs : list (list PathEnc.edge) := [[(0, 1)]; [(0, 2)]]%N.
+
+Example ex_fix_safe : forall P w, decomposition (exI 2) P w -> constraints_covered (f_base (exI 2)) P ->
+  forall j S, nth_error exSs j = Some S -> exists i, In i (layers (p_k (f_base (exI 2)))) /\ incl S (pairs (P i)).
+Proof.
+  intros P w (_ & _ & Hf) _ j S Hj.
+  assert (Hpos : forall e, In e (g_edges exG) -> (0 < lookup_q e (f_flow (exI 2)) 0)%Q ->
+                 exists i, In i (layers 2) /\ In e (pairs (P i))).
+  { intros e He Hp. pose proof (Hf e He eq_refl) as F. cbn [p_k f_base exI exB layers map seq sumq] in F.
+    destruct (mem_edge e (pairs (P (N.of_nat 0)))) eqn:M0.
+    - exists 0%N. split; [cbn; auto|apply mem_edge_In; exact M0].
+    - destruct (mem_edge e (pairs (P (N.of_nat 1)))) eqn:M1.
+      + exists 1%N. split; [cbn; auto|apply mem_edge_In; exact M1].
+      + exfalso. cbn [indq] in F. lra. }
+  destruct j as [|[|j]]; [| |destruct j; discriminate]; cbn in Hj; injection Hj as <-.
+  - destruct (Hpos (0, 1)%N) as (i & Hi & Hin); [cbn; auto|vm_compute; reflexivity|].
+    exists i. split; [exact Hi|]. intros e [<-|[]]. exact Hin.
+  - destruct (Hpos (0, 2)%N) as (i & Hi & Hin); [cbn; auto|vm_compute; reflexivity|].
+    exists i. split; [exact Hi|]. intros e [<-|[]]. exact Hin.
+Qed.
+
+Example ex_fix_incompatible : forall j j' S S', j <> j' -> nth_error exSs j = Some S -> nth_error exSs j' = Some S' ->
+  forall l, NoDup l -> incl S (pairs l) -> incl S' (pairs l) -> False.
+Proof.
+  intros j j' S S' Hne Hj Hj' l ND HS HS'.
+  destruct j as [|[|j]]; [| |destruct j; discriminate]; cbn in Hj; injection Hj as <-;
+  (destruct j' as [|[|j']]; [| |destruct j'; discriminate]; cbn in Hj'; injection Hj' as <-); try congruence.
+  - apply (two_out_edges_nodup l 0%N 1%N 2%N); [discriminate|exact ND|apply HS; left; reflexivity|apply HS'; left; reflexivity].
+  - apply (two_out_edges_nodup l 0%N 2%N 1%N); [discriminate|exact ND|apply HS; left; reflexivity|apply HS'; left; reflexivity].
+Qed.
+
+Example ex_fixed_model_feasible : exists a, sat a (with_rows (encode_kfd (exI 2)) (fix_rows exSs)).
+Proof.
+  apply (safe_fix_preserves_feasibility (exI 2) exRank 3 exSs ex_wf eq_refl ex_rank ex_rank_le (ex_cons_ok 2)).
+  - cbn. lia.
+  - exact ex_fix_safe.
+  - exact ex_fix_incompatible.
+  - exact ex_lp_feasible_2.
+Qed.
